@@ -221,6 +221,25 @@ theorem C16_pickle_flushes (cfg : Cfg) (s : State) (h : Hnd) (o : Inst) (fail : 
   rw [heq]
   exact syncUpdate_ok_pending s h fail
 
+/-- **Unpickling.**  The pickled state carries the attribute values only: the instance `__setstate__` builds
+    has NOTHING pending and is not dirty, no statement is sent, no table changes — so (by
+    `C16_sync_writes_pending`) its `syncUpdate()` sends no UPDATE and cannot write back values that were
+    pending (and flushed) when the original was pickled. -/
+theorem C16_unpickle_clean (cfg : Cfg) (s : State) (h : Hnd) (cls : Cls) (id : Id) (snap : Pend) (clash : Bool) :
+    (opUnpickle cfg s h cls id snap clash).1.log = s.log ∧
+    (opUnpickle cfg s h cls id snap clash).1.updates = s.updates ∧
+    (opUnpickle cfg s h cls id snap clash).1.db = s.db ∧
+    ((opUnpickle cfg s h cls id snap clash).2 = .ok →
+      ∃ o, (opUnpickle cfg s h cls id snap clash).1.objs h = some o ∧ o.pending = [] ∧ o.dirty = false ∧
+        opSyncUpdate (opUnpickle cfg s h cls id snap clash).1 h false = ((opUnpickle cfg s h cls id snap clash).1, .ok)) := by
+  unfold opUnpickle
+  split
+  · exact ⟨rfl, rfl, rfl, fun hx => by simp at hx⟩
+  · split
+    · exact ⟨rfl, rfl, rfl, fun hx => by simp at hx⟩
+    · refine ⟨rfl, rfl, rfl, fun _ => ⟨unpickledInst cfg cls id snap, by simp [register], rfl, rfl, ?_⟩⟩
+      simp [opSyncUpdate, register, unpickledInst]
+
 /-- and for an eager object pickling sends nothing -/
 theorem C16_pickle_eager_noop (cfg : Cfg) (s : State) (h : Hnd) (o : Inst) (fail : Bool) (ho : s.objs h = some o)
     (hl : cfg.lazyUpdate o.cls = false) : opPickle cfg s h fail = (s, .ok) := by
@@ -257,6 +276,13 @@ theorem C16_only_flush_ops_write_lazy (cfg : Cfg) (s : State) (op : Op) (hop : I
   | pickle h fail => simp [IsFlushOp] at hop
   | drop h => exact nlw_log_eq _ _ _ rfl
   | bulkDelete cls ids => exact nlw_one _ _ _ _ rfl rfl
+  | unpickle h cls id snap clash =>
+    simp only [step, opUnpickle]
+    split
+    · exact nlw_refl _ _
+    · split
+      · exact nlw_refl _ _
+      · exact nlw_log_eq _ _ _ rfl
   | oobUpdate cls id c v => exact nlw_log_eq _ _ _ rfl
   | oobDelete cls id => exact nlw_log_eq _ _ _ rfl
   | oobInsert cls id vals =>
